@@ -400,7 +400,7 @@ theorem xstep_li (s : XS) (op : XOp) (hp : opOk op = true) (hi : Inv1 s) (h : LI
     simp only [xstep]
     split
     · have kf : Keeps (fun a : XAct => if a.id == id && a.kind == .dummy && a.st == .running then { a with st := .finished, fin := some s.nextRun } else a) := by
-        intro a; split <;> simp_all
+        intro a; simp only; split <;> simp_all
       exact li_queues s _ h rfl rfl (fun _ _ => trivial) (fun k => map_q _ _ kf k) (fun k => map_q _ _ kf k) (fun k => map_q _ _ kf k)
     · exact h
   | pass =>
@@ -420,11 +420,11 @@ theorem xstep_li (s : XS) (op : XOp) (hp : opOk op = true) (hi : Inv1 s) (h : LI
                                   q2 := s.q2.map (fun a => if a.fin == some rid then { a with fin := none } else a) } :=
           (inv1_iff _).2 ⟨headI_map _ _ _ _ h0 hf hr, headI_map _ _ _ _ h1 hf hr, headI_map _ _ _ _ h2 hf hr, hc⟩
         have kf : Keeps (fun a : XAct => if a.fin == some rid then { a with fin := none } else a) := by
-          intro a; split <;> simp_all
-        have lpre := li_queues s { s with q0 := s.q0.map (fun a => if a.fin == some rid then { a with fin := none } else a),
-                                  q1 := s.q1.map (fun a => if a.fin == some rid then { a with fin := none } else a),
-                                  q2 := s.q2.map (fun a => if a.fin == some rid then { a with fin := none } else a) } h rfl rfl (fun _ _ => trivial)
-          (fun k => map_q _ _ kf k) (fun k => map_q _ _ kf k) (fun k => map_q _ _ kf k)
+          intro a; simp only; split <;> simp_all
+        have lpre : LI { s with q0 := s.q0.map (fun a => if a.fin == some rid then { a with fin := none } else a),
+                                q1 := s.q1.map (fun a => if a.fin == some rid then { a with fin := none } else a),
+                                q2 := s.q2.map (fun a => if a.fin == some rid then { a with fin := none } else a) } :=
+          li_queues s _ h rfl rfl (fun _ _ => trivial) (fun k => map_q _ _ kf k) (fun k => map_q _ _ kf k) (fun k => map_q _ _ kf k)
         have h' := schedule_inv _ hpre
         have h4' := (inv1_iff _).1 h'
         exact ih _ h' (schedule_li _ hpre lpre) h4'.1 h4'.2.1 h4'.2.2.1 h4'.2.2.2
